@@ -32,6 +32,9 @@ CLAIMED = {
  "C05": dict(text="Interpolation functions of the three strategies are part of the Coq solver model (one-step refinement against solver.interpolate_fwd); theorems identify filter interpolation with Kalman prediction through the closed-form transition and smoother interpolation with RTS conditioning; the real adaptive driver, forced onto prescribed step sequences, is compared with exact Gaussian filtering/smoothing on the union of step ends and output times (Spec/RTS.v); checkpoint-set independence and terminal values metamorphically.",
              note=TB + "Independence of the checkpoint set is established by correspondence (C06 machine + interpolation refinement) and metamorphic runs, not by a Coq simulation theorem.",
              tech="machine-checked proof in Coq (interpolation = prediction / RTS conditioning) + one-step correspondence + executable exact-interpolation specification"),
+ "C09": dict(text="Closed form of the preconditioned integrated-Wiener transition proved for every q (A(h)_ij = h^(j-i)/(j-i)!, Hilbert-type Q(h)), linearity of the noise in the squared scale, composition of transitions as composition of conditionals; for the exponential priors: Pade order (exactly 2p) and Legendre-Gram order conditions proved for the five SOURCE tables (re-translated every run) by exact series arithmetic, doubling exactness, Kahan-Hilbert Gram (n<=11), OU/Matern bottom blocks; correspondence of all transitions, merges, exp_gram_cholesky for the five orders (vs the exact rational model of the same algorithm and vs an independent high-precision reference), float64 and float32.",
+             note=TB + "'Equals the matrix exponential to working precision' is transcendental: proved are the orders of the rational approximants and the exactness of doubling; the residual gap is measured against a 900-bit reference. Bounds (five orders, n<=11, q<=10) are stated in the theorems proved by vm_compute.",
+             tech="machine-checked proof in Coq (closed forms for all q; reflective exact-series identities for the source tables) + model-vs-implementation correspondence + independent high-precision reference"),
  "C16": dict(text="PARTIAL: the one hand-written derivative rule (custom JVP of qr_r) is analysed in Coq: it preserves the Gram derivative for all shapes (theorem) and is refuted as derivative of the triangular factor (exact rational witness); the JAX transformation machinery itself cannot be modelled. The check compares jax.jvp, jax.jacrev and 4th-order finite differences of means, stds, scales and losses w.r.t. vector-field, initial-value, base-scale and noise parameters, with discriminator re-runs (exact QR rule, safe norm, triangular solve) that attribute mismatches to the listed known findings.",
              note=TB + "Forward/reverse agreement and finiteness are observed, not proved (JAX runtime).",
              tech="machine-checked proof in Coq (matrix identity + refutation witness) + AD-vs-finite-difference comparison with discriminators"),
